@@ -199,6 +199,10 @@ pub fn run_one(tier: &str, check: &str, seed: u64, tmp: &Path, log: Option<&mut 
             let evs = crate::t4::generate_for(seed, check);
             with_runtime(crate::t4::run_events(seed, &evs, tmp, "g"))
         }
+        "t16" => {
+            let (cfg, evs) = crate::t16::generate(seed);
+            with_runtime(crate::t16::run_events(seed, cfg, &evs, tmp, "g"))
+        }
         "t19" => {
             let evs = crate::t19::generate(seed);
             with_runtime(crate::t19::run_events(seed, &evs, tmp, "g"))
@@ -254,6 +258,14 @@ pub fn run_list(
                 .map(|e| serde_json::from_value(e.clone()))
                 .collect::<Result<_, _>>()?;
             with_runtime(crate::t4::run_events(seed, &evs, tmp, tag))
+        }
+        "t16" => {
+            let cfg: crate::t16::Cfg = serde_json::from_value(config.clone())?;
+            let evs: Vec<crate::t16::Ev> = events
+                .iter()
+                .map(|e| serde_json::from_value(e.clone()))
+                .collect::<Result<_, _>>()?;
+            with_runtime(crate::t16::run_events(seed, cfg, &evs, tmp, tag))
         }
         "t19" => {
             let evs: Vec<crate::t19::Ev> = events
